@@ -114,6 +114,8 @@ type Sys struct {
 	// association of scenario calls with log indexes (MapCalls)
 	callIndex map[int]uint64
 	indexCall map[uint64]int
+	// OnTaskStart is called when a reconcile task starts (monitors that bracket tasks)
+	OnTaskStart func(task string)
 }
 
 // Violation is one oracle failure.
@@ -205,6 +207,11 @@ func (s *Sys) Boot() error {
 		inc.reg.Start()
 		mk := func(name string, rec controller.Reconciler, part func(controller.ID) string, ws ...controller.Watcher) {
 			c := NewCtl(s.K, ctx, name, rec, part)
+			c.OnStart = func(task string, id controller.ID) {
+				if s.OnTaskStart != nil {
+					s.OnTaskStart(task)
+				}
+			}
 			for _, w := range ws {
 				must(c.Watch(w))
 			}
